@@ -36,9 +36,23 @@ PARAMS_TRANS = dict(PARAMS_MAIN, time=("time", "erat"), source=("source", "onode
 PARAMS_REC = dict(PARAMS_MAIN, time=("time", "erat"), node=("node", "node"))
 
 
+# queued function -> (constructor, expected names of the shared-object arguments, positions of the node payload)
+EVENTS_SIR = {
+    "_process_rec_SIR_": ("recov", (1, ["times", "S", "I", "R", "status"]), [0]),
+    "_process_trans_SIR_": ("trans", (3, ["times", "S", "I", "R", "Q", "status", "rec_time", "pred_inf_time", "transmissions",
+                                          "trans_and_rec_time_fxn", "trans_and_rec_time_args"]), [1, 2]),
+}
+EVENTS_FSIS = {
+    "_process_rec_SIS_": ("recov", (1, ["times", "recovery_times", "S", "I", "status"]), [0]),
+    "_process_trans_SIS_Markov": ("trans", (3, ["times", "S", "I", "Q", "status", "rec_time", "infection_times", "recovery_times",
+                                                "transmissions", "trans_rate_fxn", "rec_rate_fxn"]), [1, 2]),
+}
+
+
 class EvFn(pf.Fn):
-    def __init__(self, node, params):
-        super().__init__(node, FIELDS, "GenESIR", params=params, profile="event")
+    def __init__(self, node, params, fields=None, ns="GenESIR", events=None):
+        super().__init__(node, fields or FIELDS, ns, params=params, profile="event")
+        self.events = events or EVENTS_SIR
 
     def expr(self, e, ind):
         src = ast.unparse(e)
@@ -104,32 +118,33 @@ class EvFn(pf.Fn):
                 raise Unsupported("Q.add time kind " + k)
             fn = ast.unparse(e.args[1])
             args = e.keywords[0].value
-            if not isinstance(args, ast.Tuple):
-                raise Unsupported("Q.add args")
-            names = [ast.unparse(a) for a in args.elts]
-            if fn == "_process_rec_SIR_":
-                if names[1:] != ["times", "S", "I", "R", "status"]:
-                    raise Unsupported("args of the recovery event: " + str(names))
-                p1, a, ka = self.expr(args.elts[0], ind)
-                if ka != "node":
-                    raise Unsupported("recovery event node")
-                ev = f"(Ev.recov {a})"
-            elif fn == "_process_trans_SIR_":
-                if names[0] != "G" or names[3:] != ["times", "S", "I", "R", "Q", "status", "rec_time", "pred_inf_time", "transmissions",
-                                                     "trans_and_rec_time_fxn", "trans_and_rec_time_args"]:
-                    raise Unsupported("args of the transmission event: " + str(names))
-                p1a, a, ka = self.expr(args.elts[1], ind)
-                p1b, b, kb = self.expr(args.elts[2], ind)
-                p1 = p1a + p1b
-                if ka == "node":
-                    a = f"(some {a})"
-                elif ka not in ("none", "onode"):
-                    raise Unsupported("transmission event source")
-                if kb != "node":
-                    raise Unsupported("transmission event target")
-                ev = f"(Ev.trans {a} {b})"
-            else:
+            if fn not in self.events:
                 raise Unsupported("Q.add of " + fn)
+            ctor, (pos, shared), payload = self.events[fn]
+            if isinstance(args, ast.Name) and args.id == "trans_event_args" and ctor == "trans" and self.params.get("source", ("", ""))[1] == "node":
+                # the caller's tuple (G, source, target, shared objects...): validated at every call site of this function
+                p1, ev = [], "(Ev.trans (some source) target)"
+            else:
+                if not isinstance(args, ast.Tuple):
+                    raise Unsupported("Q.add args")
+                names = [ast.unparse(a) for a in args.elts]
+                if names[pos:] != shared or (ctor == "trans" and names[0] != "G"):
+                    raise Unsupported("args of the %s event: %s" % (ctor, names))
+                parts = [self.expr(args.elts[i], ind) for i in payload]
+                p1 = sum((q for q, _, _ in parts), [])
+                if ctor == "recov":
+                    if parts[0][2] != "node":
+                        raise Unsupported("recovery event node")
+                    ev = f"(Ev.recov {parts[0][1]})"
+                else:
+                    (_, a, ka), (_, b, kb) = parts
+                    if ka == "node":
+                        a = f"(some {a})"
+                    elif ka not in ("none", "onode"):
+                        raise Unsupported("transmission event source")
+                    if kb != "node":
+                        raise Unsupported("transmission event target")
+                    ev = f"(Ev.trans {a} {b})"
             return p + p1 + [f"{ind}let σ := {{ σ with Q := MyQueue.add σ.Q {tm} {ev} }}"], "()", "unit"
         return super().call(e, ind)
 
@@ -326,24 +341,200 @@ def translate(repo=REPO):
     return HEADER.format(sha=sha) + "\n".join(parts) + "\nend GenESIR\n", errors
 
 
-def regenerate():
-    import warnings
-    target = os.path.join(os.path.dirname(os.path.abspath(__file__)), "..", "lean", "EoNVerif", "Gen", "EventSIRGen.lean")
-    with warnings.catch_warnings():
-        warnings.simplefilter("ignore")
-        text, errors = translate()
+# ======================================================================================= fast_SIS (Markovian SIS)
+FIELDS_FS = [("status", "status"), ("rec_time", "nodefn:erat"), ("Q", "queue"), ("times", "list:erat"), ("S", "list:int"),
+             ("I", "list:int"), ("infection_times", "ddlist"), ("recovery_times", "ddlist"), ("transmissions", "trans"),
+             # locals of the handlers that are assigned on several paths (kept in the record; always written before read)
+             ("rec_rate", "rat"), ("delay", "erat"), ("transmission_time", "erat")]
+PARAMS_FS_MAIN = {"tmin": ("P.tmin", "rat"), "tmax": ("P.tmax", "erat"), "initial_infecteds": ("initial_infecteds", "nodes")}
+PARAMS_FS_TRANS = dict(PARAMS_FS_MAIN, time=("time", "erat"), source=("source", "onode"), target=("target", "node"))
+PARAMS_FS_REC = dict(PARAMS_FS_MAIN, time=("time", "erat"), node=("node", "node"))
+PARAMS_FS_FIND = dict(PARAMS_FS_MAIN, time=("time", "erat"), tau=("tau", "rat"), source=("source", "node"), target=("target", "node"))
+
+
+class FsFn(EvFn):
+    def __init__(self, node, params):
+        super().__init__(node, params, fields=FIELDS_FS, ns="GenFSIS", events=EVENTS_FSIS)
+
+    def expr(self, e, ind):
+        if ast.unparse(e) == "defaultdict(lambda: [])":
+            return [], "[]", "list:empty"
+        return super().expr(e, ind)
+
+    def call(self, e, ind):
+        f = e.func
+        src = ast.unparse(e)
+        if isinstance(f, ast.Name) and f.id == "trans_rate_fxn" and len(e.args) == 2:
+            (p1, a, ka), (p2, b, kb) = self.expr(e.args[0], ind), self.expr(e.args[1], ind)
+            if (ka, kb) != ("node", "node"):
+                raise Unsupported("trans_rate_fxn arguments")
+            return p1 + p2, f"(P.transRate {a} {b})", "rat"
+        if isinstance(f, ast.Name) and f.id == "rec_rate_fxn" and len(e.args) == 1:
+            p1, a, ka = self.expr(e.args[0], ind)
+            if ka != "node":
+                raise Unsupported("rec_rate_fxn argument")
+            return p1, f"(P.recRate {a})", "rat"
+        if isinstance(f, ast.Name) and f.id == "_find_next_trans_SIS_Markov":
+            names = [ast.unparse(a) for a in e.args]
+            if len(e.args) != 7 or names[0] != "Q" or names[1] != "time" or names[5:] != ["status", "rec_time"] \
+                    or len(e.keywords) != 1 or e.keywords[0].arg != "trans_event_args" or not isinstance(e.keywords[0].value, ast.Tuple):
+                raise Unsupported("call of _find_next_trans_SIS_Markov: " + src[:80])
+            tea = [ast.unparse(a) for a in e.keywords[0].value.elts]
+            ctor, (pos, shared), payload = self.events["_process_trans_SIS_Markov"]
+            # the event that the callee may queue carries (G, source, target, shared objects): must be the callee's own source/target
+            if tea[0] != "G" or tea[1] != names[3] or tea[2] != names[4] or tea[pos:] != shared:
+                raise Unsupported("trans_event_args do not match the call: " + str(tea))
+            pr, rate, kr = self.expr(e.args[2], ind)
+            (p3, a, ka), (p4, b, kb) = self.expr(e.args[3], ind), self.expr(e.args[4], ind)
+            if kr != "rat" or (ka, kb) != ("node", "node"):
+                raise Unsupported("argument kinds of _find_next_trans_SIS_Markov")
+            return pr + p3 + p4 + [f"{ind}let σ ← find_next_trans P time {rate} {a} {b} σ"], "()", "unit"
+        return super().call(e, ind)
+
+    def block(self, stmts, ind, in_loop=False):
+        out = []
+        for i, st in enumerate(stmts):
+            if isinstance(st, ast.Raise):
+                name = st.exc.func.attr if (isinstance(st.exc, ast.Call) and isinstance(st.exc.func, ast.Attribute)) else "Exception"
+                out.append(f'{ind}let σ ← (TM.fail "{name}" : TM Loc)')
+                continue
+            if isinstance(st, ast.If) and ast.unparse(st.test) == "source is not None" and self.params.get("source", ("", ""))[1] == "onode" \
+                    and not st.orelse:
+                saved = dict(self.params)
+                self.params = dict(self.params, source=("source", "node"))
+                body = self.block(st.body, ind + "    ", False)
+                self.params = saved
+                out += [f"{ind}let σ ← (match source with", f"{ind}  | some source => do"] + body + [f"{ind}    pure σ", f"{ind}  | none => pure σ)"]
+                continue
+            out += super().block([st], ind, in_loop and i == len(stmts) - 1)
+        return out
+
+
+HEADER_FS = HEADER.replace("`myQueue`, `_process_trans_SIR_`, `_process_rec_SIR_` and\n`fast_nonMarkov_SIR`",
+                           "`myQueue`, `_process_trans_SIS_Markov`, `_find_next_trans_SIS_Markov`, `_process_rec_SIS_` and\n`fast_SIS`").replace("namespace GenESIR", "namespace GenFSIS")
+
+
+def body_of(n):
+    return [s for s in n.body if not (isinstance(s, ast.Expr) and isinstance(s.value, ast.Constant))]
+
+
+def translate_fsis(repo=REPO):
+    src = open(os.path.join(repo, "EoN", "simulation.py")).read()
+    tree = ast.parse(src)
+    fns = {n.name: n for n in tree.body if isinstance(n, ast.FunctionDef)}
+    cls = {n.name: n for n in tree.body if isinstance(n, ast.ClassDef)}
+    errors, parts, sources = {}, [], []
+    try:
+        parts.append(queue_lean(cls["myQueue"]))
+        sources.append(ast.unparse(cls["myQueue"]))
+        parts.append("/-- the arguments: the graph is read through `G.neighbors` and `G.order()`; `transRate` / `recRate` are the rate functions\n"
+                     "returned by `EoN._get_rate_functions_` (tau * edge weight, gamma * node weight) -/\n"
+                     "structure FArgs where\n  nbrs : Node → List Node\n  order : Nat\n  tmin : Rat\n  tmax : ERat\n"
+                     "  transRate : Node → Node → Rat\n  recRate : Node → Rat\n")
+        parts.append("/-- the objects shared by the main function and the event handlers -/\nstructure Loc where\n" +
+                     "\n".join(f"  {f} : {pf.LEAN_TY[k]}" for f, k in FIELDS_FS) + "\n")
+        parts.append("def Loc.init : Loc :=\n  { " + ", ".join(f"{f} := {pf.DEFAULT[k]}" for f, k in FIELDS_FS) + " }\n")
+        # --- _process_rec_SIS_
+        n = fns["_process_rec_SIS_"]
+        if [a.arg for a in n.args.args] != ["time", "node", "times", "recovery_times", "S", "I", "status"]:
+            raise Unsupported("_process_rec_SIS_ parameters")
+        lines = FsFn(n, PARAMS_FS_REC).block(body_of(n), "  ")
+        parts.append(f"/-- generated from `_process_rec_SIS_` (EoN/simulation.py:{n.lineno}) -/\n"
+                     "def process_rec (P : FArgs) (time : ERat) (node : Node) (σ : Loc) : TM Loc := do\n" + "\n".join(lines) + "\n  pure σ\n")
+        sources.append(ast.unparse(n))
+        # --- _find_next_trans_SIS_Markov
+        n = fns["_find_next_trans_SIS_Markov"]
+        if [a.arg for a in n.args.args] != ["Q", "time", "tau", "source", "target", "status", "rec_time", "trans_event_args"]:
+            raise Unsupported("_find_next_trans_SIS_Markov parameters")
+        lines = FsFn(n, PARAMS_FS_FIND).block(body_of(n), "  ")
+        parts.append(f"/-- generated from `_find_next_trans_SIS_Markov` (EoN/simulation.py:{n.lineno}) -/\n"
+                     "def find_next_trans (P : FArgs) (time : ERat) (tau : Rat) (source target : Node) (σ : Loc) : TM Loc := do\n"
+                     + "\n".join(lines) + "\n  pure σ\n")
+        sources.append(ast.unparse(n))
+        # --- _process_trans_SIS_Markov
+        n = fns["_process_trans_SIS_Markov"]
+        want = ["time", "G", "source", "target", "times", "S", "I", "Q", "status", "rec_time", "infection_times", "recovery_times",
+                "transmissions", "trans_rate_fxn", "rec_rate_fxn"]
+        if [a.arg for a in n.args.args] != want:
+            raise Unsupported("_process_trans_SIS_Markov parameters")
+        lines = FsFn(n, PARAMS_FS_TRANS).block(body_of(n), "  ")
+        parts.append(f"/-- generated from `_process_trans_SIS_Markov` (EoN/simulation.py:{n.lineno}) -/\n"
+                     "def process_trans (P : FArgs) (time : ERat) (source : Option Node) (target : Node) (σ : Loc) : TM Loc := do\n"
+                     + "\n".join(lines) + "\n  pure σ\n")
+        sources.append(ast.unparse(n))
+        parts.append("/-- generated from `myQueue.pop_and_run`: pop the smallest entry and call its function on the shared objects -/\n"
+                     "def pop_and_run (P : FArgs) (σ : Loc) : TM Loc := do\n"
+                     "  let (m, q) ← PyTM.liftE (MyQueue.popMin σ.Q)\n  let σ := { σ with Q := q }\n"
+                     "  match m.2.2 with\n  | Ev.trans source target => process_trans P m.1 source target σ\n"
+                     "  | Ev.recov node => process_rec P m.1 node σ\n")
+        # --- main
+        n = fns["fast_SIS"]
+        body = n.body
+        start = next((i for i, s in enumerate(body) if ast.unparse(s) == "times = [tmin]"), None)
+        wi = next((i for i, s in enumerate(body) if isinstance(s, ast.While)), None)
+        if start is None or wi is None:
+            raise Unsupported("slice markers of fast_SIS not found")
+        wh = body[wi]
+        if ast.unparse(wh.test) != "Q" or [ast.unparse(s) for s in wh.body] != ["Q.pop_and_run()"]:
+            raise Unsupported("main loop is no longer `while Q: Q.pop_and_run()`")
+        # the rate functions come from EoN._get_rate_functions_ (parameters transRate / recRate)
+        if not any(ast.unparse(s).startswith("trans_rate_fxn, rec_rate_fxn = EoN._get_rate_functions_(G, tau, gamma, transmission_weight, recovery_weight)")
+                   for s in body[:start]):
+            raise Unsupported("rate functions are no longer obtained from EoN._get_rate_functions_")
+        post = body[wi + 1: wi + 4]
+        if [ast.unparse(s) for s in post] != ["times = times[len(initial_infecteds):]", "S = S[len(initial_infecteds):]",
+                                              "I = I[len(initial_infecteds):]"]:
+            raise Unsupported("removal of the synthetic initial rows changed")
+        fn = FsFn(n, PARAMS_FS_MAIN)
+        pre = fn.block(body[start:wi], "  ")
+        post_l = fn.block(post, "  ")
+        parts.append("/-- generated from `while Q: Q.pop_and_run()`; `fuel` bounds the number of events -/\n"
+                     "def loop (P : FArgs) : Nat → Loc → TM Loc\n  | 0, _ => TM.fail \"fuel\"\n  | fuel + 1, σ => do\n"
+                     "    if decide (MyQueue.len σ.Q > 0) then do\n      let σ ← pop_and_run P σ\n      loop P fuel σ\n    else pure σ\n")
+        parts.append(f"/-- generated from `fast_SIS` (EoN/simulation.py:{body[start].lineno}-{post[-1].lineno}) -/\n"
+                     "def run (P : FArgs) (initial_infecteds : List Node) (fuel : Nat) : TM Loc := do\n"
+                     "  let σ : Loc := Loc.init\n" + "\n".join(pre) + "\n  let σ ← loop P fuel σ\n" + "\n".join(post_l) + "\n  pure σ\n")
+        sources.append(ast.unparse(ast.Module(body=body[start:wi + 4], type_ignores=[])))
+    except (Unsupported, KeyError) as ex:
+        errors["fast_SIS"] = f"unsupported: {ex}"
+    sha = hashlib.sha1("\n".join(sources).encode()).hexdigest()
+    return HEADER_FS.format(sha=sha) + "\n".join(parts) + "\nend GenFSIS\n", errors
+
+
+
+def _write(target, text):
     old = open(target).read() if os.path.exists(target) else None
-    if text and not errors and old != text:
+    if text and old != text:
         tmp = target + ".tmp%d" % os.getpid()
         with open(tmp, "w") as f:
             f.write(text)
         os.replace(tmp, target)
-    return old != text, errors
+    return old != text
+
+
+def regenerate(which=("sir", "fsis")):
+    """`which`: the families to regenerate; a family whose translation fails keeps its old file and reports the error"""
+    import warnings
+    gen = os.path.join(os.path.dirname(os.path.abspath(__file__)), "..", "lean", "EoNVerif", "Gen")
+    changed, errors = False, {}
+    with warnings.catch_warnings():
+        warnings.simplefilter("ignore")
+        if "sir" in which:
+            text, e = translate()
+            errors.update(e)
+            if not e:
+                changed |= _write(os.path.join(gen, "EventSIRGen.lean"), text)
+        if "fsis" in which:
+            text, e = translate_fsis()
+            errors.update(e)
+            if not e:
+                changed |= _write(os.path.join(gen, "FastSISGen.lean"), text)
+    return changed, errors
 
 
 def main():
     changed, errors = regenerate()
-    print("pyevent2lean: Gen/EventSIRGen.lean %s" % ("rewritten" if changed else "up to date"))
+    print("pyevent2lean: Gen/EventSIRGen.lean, Gen/FastSISGen.lean %s" % ("rewritten" if changed else "up to date"))
     for n, e in errors.items():
         print(f"pyevent2lean: {n}: {e}")
     return 1 if errors else 0
